@@ -87,8 +87,8 @@ def fleetOp (w : List String) : Option FleetStore.Op :=
   match w with
   | ["rp", p] => do pure (.reservePut (← parseNat p))
   | ["rg", p] => do pure (.reserveGet (← parseNat p))
-  | ["rp", p, _] => do pure (.reservePut (← parseNat p))
-  | ["rg", p, _, _] => do pure (.reserveGet (← parseNat p))
+  | ["rp", p, pr] => do pure (.reservePutP (← parseNat p) (← parseInt pr))          -- FleetStore.reserve_put(priority=pr)
+  | ["rg", p, pr, _] => do pure (.reserveGetP (← parseNat p) (← parseInt pr))
   | ["put", p, t, i, k, _] => do pure (.put (← parseNat p) (← parseNat t) { id := (← parseNat i), kind := (← parseNat k) })
   | ["get", p, t] => do pure (.get (← parseNat p) (← parseNat t))
   | ["cp", t] => do pure (.cancelPut (← parseNat t))
@@ -102,8 +102,8 @@ def slotOp (w : List String) : Option SlotBelt.Op :=
   match w with
   | ["rp", p] => do pure (.reservePut (← parseNat p))
   | ["rg", p] => do pure (.reserveGet (← parseNat p))
-  | ["rp", p, _] => do pure (.reservePut (← parseNat p))
-  | ["rg", p, _, _] => do pure (.reserveGet (← parseNat p))
+  | ["rp", p, pr] => do pure (.reservePutP (← parseNat p) (← parseInt pr))          -- slotted BeltStore.reserve_put(priority=pr)
+  | ["rg", p, pr, _] => do pure (.reserveGetP (← parseNat p) (← parseInt pr))
   | ["put", p, t, i, k, _] => do pure (.put (← parseNat p) (← parseNat t) { id := (← parseNat i), kind := (← parseNat k) })
   | ["get", p, t] => do pure (.get (← parseNat p) (← parseNat t))
   | ["cp", t] => do pure (.cancelPut (← parseNat t))
